@@ -413,6 +413,33 @@ func c11TrailerBlocked(kind string, how string, exchanged int, others int, probe
 		fmt.Sprintf("exchanged:%d", exchanged), fmt.Sprintf("others:%d", others), fmt.Sprintf("probe-deadline:%v", probeDl)}}
 }
 
+// back-pressure all the way: a unary call's reply travels BEHIND m >= 3 unread responses of a stream whose caller
+// then cancels while the client's transport accepts no Write: the client's read loop is parked on the dead stream's
+// full queue until the teardown has unregistered it, and the teardown is inside its RST_STREAM Write. That Write is
+// bounded (30 s): once the virtual clock has passed the bound the stream is unregistered, the read loop goes on and
+// the unary call gets its reply - with the back-pressure on the Writes still in place.
+func c11ResetWriteBound(kind string, m int, advanceMs int64, second bool) cwScenario {
+	s := []Step{{Op: "unary", B: 95, Gate: true}, {Op: "c2s"}}
+	c := 1
+	if second {
+		// a second unary call whose reply is also behind the unread responses
+		s = append(s, Step{Op: "unary", B: 96, Gate: true}, Step{Op: "c2s"})
+		c = 2
+	}
+	s = append(s, Step{Op: "open", Kind: kind}, Step{Op: "c2s"}, Step{Op: "send", C: c, B: 10}, Step{Op: "c2s"}, hop(c, HOp{Op: "recv"}))
+	for j := 0; j < m; j++ {
+		s = append(s, hop(c, HOp{Op: "send", B: int64(20 + j)}))
+	}
+	s = append(s, Step{Op: "hu", B: 95})
+	if second {
+		s = append(s, Step{Op: "hu", B: 96})
+	}
+	s = append(s, Step{Op: "drain"}, Step{Op: "cancelblk", C: c, B: 1, D: advanceMs}, Step{Op: "drain"},
+		hop(c, HOp{Op: "return"}), Step{Op: "drain"}, Step{Op: "recv", C: c})
+	return cwScenario{Mode: "e2e", Steps: s, Tags: []string{"c11", "abandon:caller", "kind:" + kind, "fault:reset-write-blocked-for-good",
+		fmt.Sprintf("unread:%d", m), fmt.Sprintf("advance-ms:%d", advanceMs), fmt.Sprintf("second:%v", second)}}
+}
+
 // a peer that sends more than expected (client against a scripted peer)
 func c11OverSending(shape string, d int, probeDl bool) cwScenario {
 	var s []Step
@@ -559,6 +586,17 @@ func c11Scenarios(full bool) []cwScenario {
 				for others := 0; others <= 2; others++ {
 					out = append(out, c11CallerAbandons(kind, m, (m+others)%2, how, others, (m+others)%2 == 1))
 				}
+			}
+		}
+	}
+	// the reply of a unary call behind the unread responses of a stream whose reset Write is blocked for good
+	for _, kind := range []string{"Bidi", "SStream"} {
+		for m := 3; m <= N+2; m++ {
+			for ai, adv := range []int64{30001, 31000, 3600000} {
+				if !full && (m+ai)%2 == 1 {
+					continue
+				}
+				out = append(out, c11ResetWriteBound(kind, m, adv, (m+ai)%4 == 0))
 			}
 		}
 	}
